@@ -15,12 +15,13 @@ func init() {
 	property("C03",
 		"Static conformance of the switch lowering: every case-body chunk returns to the statement's return id and is registered under the value / default flag of the case that owns or shares it (same index term), body-less cases scan forward from i+1 and stop at the first body, registered destinations are always ids of enqueued chunks, the default bookkeeping flag is set exactly where a default destination is stored and is consulted at both exits, trailing body-less cases get their own empty chunk when a default body exists, rendering writes 'switch', then one registered 'case' line per entry in order, then the default/return tail by the branch protocol; break-stack pairing and duplicate-case rejection on the parser side.",
 		[]string{"scheme argument of DESIGN §4 C01/C03", "go/ssa lowering is faithful to the source"},
-		"C03.a", "C03.b", "C03.c", "C03.d", "C01.f", "C10.e", "C20.a", "C20.c", "C13.a", "C01.e", "C01.h")
+		"C03.a", "C03.b", "C03.c", "C03.d", "C03.e", "C01.f", "C10.e", "C20.a", "C20.c", "C13.a", "C01.e", "C01.h")
 
 	register(&Rule{ID: "C03.a", Doc: "case bodies return after the switch and are registered under their own case's value / default flag", Floor: 8, Run: c03a})
 	register(&Rule{ID: "C03.b", Doc: "shared bodies: forward scan from i+1 to the first body; registered destinations are chunk ids, never -1", Floor: 6, Run: c03b})
 	register(&Rule{ID: "C03.c", Doc: "default bookkeeping consistent at every exit; switch chunk wiring", Floor: 7, Run: c03c})
 	register(&Rule{ID: "C03.d", Doc: "switch rendering: header, registered case lines in order, operands of the same entry", Floor: 4, Run: c03d})
+	register(&Rule{ID: "C03.e", Doc: "the parser lists the cases of a switch in the order they are written: one entry per parsed case or default, appended in the iteration that parsed it; a registered destination is computed in its own iteration", Floor: 3, Run: c03e})
 }
 
 type scbInfo struct {
@@ -533,4 +534,115 @@ func c03d(c *Ctx) {
 		c.Bad(name+"/case-line-operands", c.W.Pos(caseLine.call.Pos()), "case line does not have 3 operands")
 	}
 	_ = types.Typ
+}
+
+// c03e: body-less cases share the body of the case written after them, so the ORDER of
+// SwitchStatement.Cases is part of the meaning. (i) The parser appends to Cases only inside the
+// case loop, and every iteration that parsed a case body appends an entry before the next case is
+// read — a case held back and listed later changes which body its neighbours share. (ii) In the
+// emitter the destination registered for a case is computed in the iteration of that case: it
+// does not flow in from an earlier iteration through a variable that is not reset.
+func c03e(c *Ctx) {
+	if fn := c.Fn("parser.Parser.parseSwitchStatement"); fn != nil {
+		psb := c.Fn("parser.Parser.parseSwitchBlockStatement")
+		var appends []*ssa.Call
+		for _, st := range storesToField(fn, "ast", "SwitchStatement", "Cases") {
+			if call, ok := st.Val.(*ssa.Call); ok && calleeName(call) == "builtin:append" {
+				appends = append(appends, call)
+			}
+		}
+		// ... or a helper that does the appending (`addCase(statement, c)`)
+		for _, ci := range callsIn(fn) {
+			g := callee(ci)
+			call, isCall := ci.(*ssa.Call)
+			if g == nil || !isCall || g == fn || !c.W.InRepo(g) || len(g.Blocks) == 0 {
+				continue
+			}
+			for _, st := range storesToField(g, "ast", "SwitchStatement", "Cases") {
+				if ap, ok := st.Val.(*ssa.Call); ok && calleeName(ap) == "builtin:append" {
+					appends = append(appends, call)
+					break
+				}
+			}
+		}
+		isAppend := func(in ssa.Instruction) bool {
+			for _, a := range appends {
+				if in == ssa.Instruction(a) {
+					return true
+				}
+			}
+			return false
+		}
+		var head *ssa.BasicBlock
+		if psb != nil {
+			for _, call := range callsToIn(fn, psb) {
+				if h := loopHeaders(fn)[call.Block()]; h != nil {
+					head = h
+				}
+			}
+		}
+		if head == nil || len(appends) == 0 {
+			c.Bad("parseSwitchStatement/case-list", c.W.FuncPos(fn), "cannot find the case loop and the appends to the case list")
+		} else {
+			body := loopBody(head)
+			for i, a := range appends {
+				c.Check(body[a.Block()], fmt.Sprintf("parseSwitchStatement/case-appended-in-loop#%d", i), c.W.Pos(a.Pos()), "a case is listed in the iteration that parsed it", "an entry is added to the case list outside the case loop: it would not stand where the case was written, and body-less neighbours would share the wrong body")
+			}
+			for i, call := range callsToIn(fn, psb) {
+				if !body[call.Block()] {
+					continue
+				}
+				_, skip := existsPath(pathQuery{from: after(call.(ssa.Instruction)), avoid: isAppend, edgeOK: notErrorEdge, target: func(in ssa.Instruction) bool {
+					if r, ok := in.(*ssa.Return); ok {
+						return isSuccessReturn(r)
+					}
+					return in.Block() == head && in == head.Instrs[0]
+				}})
+				c.Check(!skip, fmt.Sprintf("parseSwitchStatement/case-listed#%d", i), c.W.Pos(call.Pos()), "every parsed case or default is entered into the case list before the next one is read", "after a case body was parsed the next case (or the end) can be reached without an entry having been added to the case list")
+			}
+		}
+	}
+	if fn := c.Fn("emitter.createSwitchStatementChunks"); fn != nil {
+		n := 0
+		for _, s := range c.switchCaseBranches(fn) {
+			if s.destVal == nil {
+				continue
+			}
+			n++
+			outer := loopHeaders(fn)[s.a.Block()]
+			for outer != nil {
+				// outermost loop around the registration = the case loop
+				up := (*ssa.BasicBlock)(nil)
+				for _, h := range fn.Blocks {
+					if h != outer && isLoopHeader(h) && loopBody(h)[outer] {
+						up = h
+					}
+				}
+				if up == nil {
+					break
+				}
+				outer = up
+			}
+			bad := ""
+			seen := map[ssa.Value]bool{}
+			var walk func(v ssa.Value)
+			walk = func(v ssa.Value) {
+				p, ok := v.(*ssa.Phi)
+				if !ok || seen[v] {
+					return
+				}
+				seen[v] = true
+				if outer != nil && p.Block() == outer {
+					bad = c.term(fn, p)
+					return
+				}
+				for _, e := range p.Edges {
+					walk(e)
+				}
+			}
+			walk(s.destVal)
+			c.Check(bad == "", fmt.Sprintf("createSwitchStatementChunks/registration#%d/dest-of-this-iteration", n), c.W.Pos(s.a.Pos()), "the destination of a case is computed in the iteration of that case", "the destination registered for a case can be "+pretty(bad)+", a value carried over from an earlier iteration of the case loop (a variable that is not reset per case): a trailing body-less case would jump into an earlier case's body")
+		}
+		c.Check(n > 0, "createSwitchStatementChunks/registrations", c.W.FuncPos(fn), fmt.Sprintf("%d registrations", n), "no case registrations found")
+	}
 }
